@@ -3,6 +3,7 @@ package main
 import (
 	"fmt"
 	"go/token"
+	"go/types"
 	"sort"
 	"strings"
 
@@ -79,7 +80,9 @@ func ruleReshareConfig(c *Ctx, rule string) {
 	if !c.Anchor(rule, "internal/dkg.(*Process).setupDKG", setup != nil) {
 		return
 	}
-	for _, ci := range callsIn(setup, func(ci ssa.CallInstruction) bool { return strings.HasSuffix(calleeName(ci), "internal/dkg.Process).reshareDKGConfig") }) {
+	for _, ci := range callsIn(setup, func(ci ssa.CallInstruction) bool {
+		return strings.HasSuffix(calleeName(ci), "internal/dkg.Process).reshareDKGConfig")
+	}) {
 		prevArg := ci.Common().Args[2]
 		fromFinished := hasOrigin(Origins(prevArg), func(o Origin) bool { return o.Kind == "call" && strings.HasSuffix(o.Name, ".GetFinished") }) &&
 			allOrigins(Origins(prevArg), func(o Origin) bool { return o.Kind == "call" && strings.HasSuffix(o.Name, ".GetFinished") })
@@ -89,7 +92,9 @@ func ruleReshareConfig(c *Ctx, rule string) {
 		})
 		c.Ok(rule, "setupDKG reshapes with the finished record whenever one exists", shortPos(c.P, ci), fromFinished && g, "previous = store.GetFinished(id), used on the != nil branch")
 	}
-	for _, ci := range callsIn(setup, func(ci ssa.CallInstruction) bool { return strings.HasSuffix(calleeName(ci), "internal/dkg.Process).initialDKGConfig") }) {
+	for _, ci := range callsIn(setup, func(ci ssa.CallInstruction) bool {
+		return strings.HasSuffix(calleeName(ci), "internal/dkg.Process).initialDKGConfig")
+	}) {
 		var fin ssa.Value
 		forEachInstr(setup, func(_ *ssa.BasicBlock, _ int, in ssa.Instruction) {
 			if ex, ok := in.(*ssa.Extract); ok && ex.Index == 0 {
@@ -124,7 +129,9 @@ func ruleValidateBeforeStore(c *Ctx, rule string) {
 		if isControlFn(fn) {
 			continue
 		}
-		for _, ci := range callsIn(fn, func(ci ssa.CallInstruction) bool { return strings.HasSuffix(calleeName(ci), "internal/core.BeaconProcess).storeDKGOutput") }) {
+		for _, ci := range callsIn(fn, func(ci ssa.CallInstruction) bool {
+			return strings.HasSuffix(calleeName(ci), "internal/core.BeaconProcess).storeDKGOutput")
+		}) {
 			n++
 			in := ci.(ssa.Instruction)
 			newGroup := ci.Common().Args[2]
@@ -237,7 +244,9 @@ func ruleValidateBeforeStore(c *Ctx, rule string) {
 				return false
 			}
 			x, y := pathOf(b.X), pathOf(b.Y)
-			isNow := func(p string) bool { return strings.Contains(p, "Now") || strings.Contains(p, "Unix") || strings.Contains(p, "%") }
+			isNow := func(p string) bool {
+				return strings.Contains(p, "Now") || strings.Contains(p, "Unix") || strings.Contains(p, "%")
+			}
 			switch {
 			case b.Op == token.LSS && x == nw+".TransitionTime" && isNow(y):
 				return truth
@@ -369,7 +378,7 @@ func ruleVaultSwap(c *Ctx, rule string) {
 	for _, ed := range c.P.Callers(si) {
 		n++
 		cf := ed.Caller.Func
-		c.Ok(rule, fnShort(cf)+" swaps the vault", c.P.Pos(ed.Pos()), strings.HasPrefix(fnShort(cf), "(*internal/chain/beacon.Handler).TransitionNewGroup$"), "only the transition callback may swap")
+		c.Ok(rule, fnShort(cf)+" swaps the vault", c.P.Pos(ed.Pos()), isTransitionCallback(c.P, cf), "only the transition callback may swap")
 	}
 	c.Floor(rule, "callers of Vault.SetInfo", n, 1)
 }
@@ -381,31 +390,100 @@ func ruleTransitionSwap(c *Ctx, rule string) {
 	if !c.Anchor(rule, "internal/chain/beacon.(*Handler).TransitionNewGroup", parent != nil) {
 		return
 	}
+	// the callback is a function literal of TransitionNewGroup, or a method bound to an object built there
 	var cl *ssa.Function
 	var mk *ssa.MakeClosure
 	var set *ssa.Call
-	for _, f := range parent.AnonFuncs {
-		for _, ci := range callsIn(f, func(ci ssa.CallInstruction) bool { return strings.HasSuffix(calleeName(ci), "crypto/vault.Vault).SetInfo") }) {
-			cl = f
-			set = ci.(*ssa.Call)
-		}
-	}
-	if cl == nil {
-		c.Ok(rule, "transition callback swaps the vault", c.P.Pos(parent.Pos()), false, "no closure of TransitionNewGroup calls Vault.SetInfo")
-		return
-	}
 	forEachInstr(parent, func(_ *ssa.BasicBlock, _ int, in ssa.Instruction) {
-		if m, ok := in.(*ssa.MakeClosure); ok && m.Fn == ssa.Value(cl) {
-			mk = m
+		m, ok := in.(*ssa.MakeClosure)
+		if !ok {
+			return
+		}
+		f := closureTarget(m)
+		if f == nil {
+			return
+		}
+		for _, ci := range callsIn(f, func(ci ssa.CallInstruction) bool {
+			return strings.HasSuffix(calleeName(ci), "crypto/vault.Vault).SetInfo")
+		}) {
+			if call, isCall := ci.(*ssa.Call); isCall {
+				cl, mk, set = f, m, call
+			}
 		}
 	})
+	if cl == nil {
+		c.Ok(rule, "transition callback swaps the vault", c.P.Pos(parent.Pos()), false, "no function literal or bound method created in TransitionNewGroup calls Vault.SetInfo")
+		return
+	}
+	bound := cl.Parent() == nil // a method bound to its receiver
+	recvName := ""
+	if bound && len(cl.Params) > 0 {
+		recvName = cl.Params[0].Name()
+	}
+	// envValue maps a name used in the callback ("^captured" or "recv.field") to the value it was given in TransitionNewGroup
+	envValue := func(name string) ssa.Value {
+		if !bound {
+			for i, fv := range cl.FreeVars {
+				if "^"+fv.Name() == name && i < len(mk.Bindings) {
+					if cell, ok := mk.Bindings[i].(*ssa.Alloc); ok {
+						return singleStore(cell)
+					}
+					return mk.Bindings[i]
+				}
+			}
+			return nil
+		}
+		if !strings.HasPrefix(name, recvName+".") || len(mk.Bindings) == 0 {
+			return nil
+		}
+		field := strings.TrimPrefix(name, recvName+".")
+		var val ssa.Value
+		n := 0
+		forEachInstr(parent, func(_ *ssa.BasicBlock, _ int, in ssa.Instruction) {
+			st, ok := in.(*ssa.Store)
+			if !ok {
+				return
+			}
+			fa, ok := st.Addr.(*ssa.FieldAddr)
+			if !ok || fa.X != mk.Bindings[0] {
+				return
+			}
+			if fieldName(fa.X.Type(), fa.Field) == field {
+				val = st.Val
+				n++
+			}
+		})
+		if n != 1 {
+			return nil
+		}
+		return val
+	}
 	pos := shortPos(c.P, set)
 	// swap operands are the new group and share handed to TransitionNewGroup
 	a := set.Common().Args
-	gOK := strings.TrimPrefix(pathOf(a[1]), "^") == parent.Params[3].Name() && strings.TrimPrefix(pathOf(a[2]), "^") == parent.Params[2].Name()
+	inParent := func(v ssa.Value) string {
+		p := pathOf(v)
+		if bound {
+			if ev := envValue(p); ev != nil {
+				return pathOf(ev)
+			}
+			return p
+		}
+		return strings.TrimPrefix(p, "^")
+	}
+	gOK := inParent(a[1]) == parent.Params[3].Name() && inParent(a[2]) == parent.Params[2].Name()
 	c.Ok(rule, "transition callback installs the new group and share it was given", pos, gOK, fmt.Sprintf("SetInfo(%s, %s)", pathOf(a[1]), pathOf(a[2])))
 	// find the round comparisons in the closure
 	bname := cl.Params[0].Name()
+	if bound && len(cl.Params) > 1 {
+		bname = cl.Params[1].Name()
+	}
+	isEnvName := func(n string) bool {
+		if bound {
+			return strings.HasPrefix(n, recvName+".")
+		}
+		return strings.HasPrefix(n, "^")
+	}
 	type cmpEdge struct {
 		e    edge
 		cons []DCons
@@ -423,7 +501,7 @@ func ruleTransitionSwap(c *Ctx, rule string) {
 				} else if k.Y == bname+".Round" {
 					other = k.X
 				}
-				if strings.HasPrefix(other, "^") {
+				if isEnvName(other) {
 					cmps = append(cmps, cmpEdge{e, cs, other})
 					break
 				}
@@ -437,15 +515,9 @@ func ruleTransitionSwap(c *Ctx, rule string) {
 	fvName := cmps[0].fv
 	// resolve the captured variable: transitionRound + off
 	off, tPath, okRes := int64(0), "", false
-	for i, fv := range cl.FreeVars {
-		if "^"+fv.Name() == fvName && i < len(mk.Bindings) {
-			if cell, ok := mk.Bindings[i].(*ssa.Alloc); ok {
-				if sv := singleStore(cell); sv != nil {
-					if t, ok := termOf(sv); ok {
-						off, tPath, okRes = t.off, t.path, true
-					}
-				}
-			}
+	if sv := envValue(fvName); sv != nil {
+		if t, ok := termOf(sv); ok {
+			off, tPath, okRes = t.off, t.path, true
 		}
 	}
 	isTR := okRes && strings.HasPrefix(tPath, "common.CurrentRound(") && strings.Contains(tPath, parent.Params[3].Name()+".TransitionTime")
@@ -470,8 +542,9 @@ func ruleTransitionSwap(c *Ctx, rule string) {
 		"every round-comparison edge that skips the swap implies b.Round <= T-2")
 	// closed callbacks never swap
 	cg := condGuarded(set, func(cond ssa.Value, truth bool) bool {
+		// the callback's bool parameter (after the receiver, if it is a bound method)
 		p, ok := cond.(*ssa.Parameter)
-		return ok && !truth && len(cl.Params) > 1 && p == cl.Params[1]
+		return ok && !truth && p.Parent() == cl && p != cl.Params[0] && types.Identical(p.Type().Underlying(), types.Typ[types.Bool])
 	})
 	c.Ok(rule, "a replaced (closed) transition callback does not swap", pos, cg, "")
 }
@@ -616,4 +689,43 @@ func ruleChainInfoInputs(c *Ctx, rule string) {
 	}
 	sort.Strings(keys)
 	c.Ok(rule, "chain info is built only from id, period, scheme, public key, genesis time and seed", c.P.Pos(fn.Pos()), ok && len(keys) >= 5, "group inputs: "+strings.Join(keys, ","))
+}
+
+// closureTarget resolves the function a MakeClosure stands for: the literal itself, or the method behind a bound-method
+// wrapper (x.m used as a value).
+func closureTarget(m *ssa.MakeClosure) *ssa.Function {
+	f, _ := m.Fn.(*ssa.Function)
+	if f == nil {
+		return nil
+	}
+	if f.Synthetic != "" && strings.Contains(f.Synthetic, "bound method wrapper") {
+		var tgt *ssa.Function
+		forEachInstr(f, func(_ *ssa.BasicBlock, _ int, in ssa.Instruction) {
+			if ci, ok := in.(ssa.CallInstruction); ok {
+				if sc := ci.Common().StaticCallee(); sc != nil {
+					tgt = sc
+				}
+			}
+		})
+		return tgt
+	}
+	return f
+}
+
+// isTransitionCallback: fn is a function literal of TransitionNewGroup or a method bound to a value there.
+func isTransitionCallback(p *Prog, fn *ssa.Function) bool {
+	parent := p.Fn("internal/chain/beacon.(*Handler).TransitionNewGroup")
+	if parent == nil {
+		return false
+	}
+	if fn.Parent() == parent {
+		return true
+	}
+	found := false
+	forEachInstr(parent, func(_ *ssa.BasicBlock, _ int, in ssa.Instruction) {
+		if m, ok := in.(*ssa.MakeClosure); ok && closureTarget(m) == fn {
+			found = true
+		}
+	})
+	return found
 }
